@@ -12,53 +12,19 @@
    when that future is already done), A5 (timeout expiry = Task.cancel + conversion of the
    CancelledError into TimeoutError at block exit unless another cancel was requested). *)
 From Coq Require Import ZArith List Bool Arith.
+From Slsk Require Export C12.Types.
+From SlskGen Require Export WaiterGen.
 Import ListNotations.
 
 (* ---------- matching ---------- *)
-Inductive conn := CServer | CPeer | COther.        (* connection.__class__ *)
-Definition conn_eqb (a b : conn) : bool :=
-  match a, b with CServer, CServer | CPeer, CPeer | COther, COther => true | _, _ => false end.
-
-Inductive pred := PGe (z : Z) | PLt (z : Z).         (* callable matchers used by the harness *)
-Definition pred_eval (p : pred) (v : Z) : bool :=
-  match p with PGe z => Z.leb z v | PLt z => Z.ltb v z end.
-
-(* expected value of one entry of ExpectedResponse.fields: a plain value (None = Python None) or a callable *)
-Inductive fm := FEq (v : option Z) | FPred (p : pred).
-
-Record matcher := mkM { m_conn : conn; m_cls : nat; m_peer : option nat; m_fields : list (nat * fm) }.
-Record msg := mkG { g_conn : conn; g_user : option nat; g_cls : nat; g_fields : list (nat * Z); g_id : nat }.
-
-Fixpoint lookup (n : nat) (fs : list (nat * Z)) : option Z :=
-  match fs with
-  | [] => None
-  | (k, v) :: r => if Nat.eqb k n then Some v else lookup n r
-  end.
-
-Definition optZ_eqb (a b : option Z) : bool :=
-  match a, b with
-  | None, None => true
-  | Some x, Some y => Z.eqb x y
-  | _, _ => false
-  end.
-Definition optnat_eqb (a b : option nat) : bool :=
-  match a, b with
-  | None, None => true
-  | Some x, Some y => Nat.eqb x y
-  | _, _ => false
-  end.
+(* Vocabulary: C12/Types.v.  ExpectedResponse.matches itself ([matches]), one round of the completion loop
+   ([loop_body]), the timeout handler of wait_for_*_message ([wait_timeout_sets_exception]) and the control-flow flags
+   of SoulSeekClient.execute are GENERATED from the source: SlskGen.WaiterGen (translate/tr_waiter.py). *)
 
 Definition field_ok (g : list (nat * Z)) (f : nat * fm) : bool :=
   match snd f with
   | FEq ov => optZ_eqb (lookup (fst f) g) ov            (* getattr(response, fname, None) != expected *)
   | FPred p => match lookup (fst f) g with None => false | Some v => pred_eval p v end
-  end.
-
-(* the loop of ExpectedResponse.matches (repaired, F02c): a callable that accepts continues with the next field *)
-Fixpoint fields_impl (fs : list (nat * fm)) (g : list (nat * Z)) : bool :=
-  match fs with
-  | [] => true
-  | f :: r => if field_ok g f then fields_impl r g else false
   end.
 
 (* the property text: "carries the expected field values" = every matcher holds *)
@@ -71,7 +37,6 @@ Definition head_ok (m : matcher) (g : msg) : bool :=
   | _, _ => true
   end.
 
-Definition matches (m : matcher) (g : msg) : bool := head_ok m g && fields_impl (m_fields m) (g_fields g).
 Definition matches_spec (m : matcher) (g : msg) : bool := head_ok m g && fields_spec (m_fields m) (g_fields g).
 
 (* ---------- waiters ---------- *)
@@ -129,8 +94,10 @@ Definition wake (e : entry) : entry :=
       (* TimeoutError leaves the `async with timeout` block *)
       match e_kind e with
       | KWait =>
-          (* except TimeoutError as exc: if not future.done(): future.set_exception(exc); raise   (repaired, F02b) *)
-          if is_pending (e_fut e) then finish e FExc OTimeout else finish e (e_fut e) OTimeout
+          (* except TimeoutError as exc: <generated guard> future.set_exception(exc); raise *)
+          if wait_timeout_sets_exception (negb (is_pending (e_fut e))) then
+            (if is_pending (e_fut e) then finish e FExc OTimeout else finish e (e_fut e) OInvalidState)
+          else finish e (e_fut e) OTimeout
       | _ => finish e (e_fut e) OTimeout
       end
     else finish e (e_fut e) OCancelled
@@ -174,7 +141,8 @@ Definition ev_sendok (e : entry) : entry :=
 
 Definition ev_sendfail (e : entry) : entry :=
   match e_task e with
-  | TSending => finish (fut_cancel e) (e_fut (fut_cancel e)) OSendError
+  | TSending => if EXEC_CANCEL_ON_SEND_FAILURE then finish (fut_cancel e) (e_fut (fut_cancel e)) OSendError
+                else finish e (e_fut e) OSendError
   | _ => e
   end.
 
@@ -185,18 +153,28 @@ Fixpoint upd (i : nat) (f : entry -> entry) (st : state) : state :=
   | e :: r, S j => e :: upd j f r
   end.
 
-(* for expected_response in self._expected_response_futures:
-       if expected_response.done(): continue                      (repaired, F02a)
-       if expected_response.matches(connection, message): expected_response.set_result(...)
-   set_result is only reached on pending futures, so the loop cannot raise InvalidStateError. *)
-Definition complete (g : msg) (e : entry) : entry :=
-  if e_in e && is_pending (e_fut e) && matches (e_m e) g then set_fut e (FResult g) else e.
-Definition deliver (g : msg) (st : state) : state := map (complete g) st.
+(* for expected_response in self._expected_response_futures: <loop_body, generated>
+   LSet = expected_response.set_result(...): on a future that is already done this raises InvalidStateError, the loop
+   is left and the connection logs 'error during callback' (the boolean).  With the generated [loop_body] of the
+   current source a done future is skipped, so this cannot happen (C12_completion_loop_never_raises). *)
+Fixpoint deliver (g : msg) (st : state) : state * bool :=
+  match st with
+  | [] => ([], false)
+  | e :: r =>
+      if e_in e then
+        match loop_body (negb (is_pending (e_fut e))) (matches (e_m e) g) with
+        | LSet =>
+            if is_pending (e_fut e) then let '(r', b) := deliver g r in (set_fut e (FResult g) :: r', b)
+            else (e :: r, true)
+        | LSkip => let '(r', b) := deliver g r in (e :: r', b)
+        end
+      else let '(r', b) := deliver g r in (e :: r', b)
+  end.
 
 Definition step (st : state) (ev : event) : state * bool :=
   match ev with
   | Register k m => (st ++ [new_entry k m], false)
-  | Message g => (deliver g st, false)
+  | Message g => deliver g st
   | Timeout i => (upd i ev_timeout st, false)
   | Cancel i => (upd i ev_cancel st, false)
   | DoneCb i => (upd i ev_donecb st, false)
